@@ -24,5 +24,5 @@ print(\"$own\" if \"$own\" in det else det[0])")
 import json
 m=json.load(open(\"$d/meta.json\"))
 print(1 if m.get(\"detected_by_quick_checks\") == [] else 0)")
-  if [ $rc -eq 1 ]; then echo "$d: caught by $id"; elif [ "$known_uncaught" = 1 ]; then echo "$d: not caught (recorded as outside what the property states, see meta.json)"; else echo "$d: MISSED by $id rc=$rc $(echo "$out" | tail -1 | cut -c1-120)"; fi
+  if [ $rc -eq 1 ]; then echo "$d: caught by $id"; elif [ "$known_uncaught" = 1 ]; then echo "$d: not caught (recorded as uncaught; the reason is in its meta.json)"; else echo "$d: MISSED by $id rc=$rc $(echo "$out" | tail -1 | cut -c1-120)"; fi
 '
